@@ -141,3 +141,45 @@ func (fr *Frame) pureResult(resT types.Type, name string, args []Val) Val {
 	}
 	return mk(resT, 0)
 }
+
+// onlyVarargUse: the interface value is only stored into call-site argument arrays (fmt/Wrapf arguments).
+func onlyVarargUse(mi *ssa.MakeInterface) bool {
+	refs := mi.Referrers()
+	if refs == nil || len(*refs) == 0 {
+		return false
+	}
+	for _, r := range *refs {
+		st, ok := r.(*ssa.Store)
+		if !ok || st.Val != mi {
+			if _, isDbg := r.(*ssa.DebugRef); isDbg {
+				continue
+			}
+			return false
+		}
+		ia, ok := st.Addr.(*ssa.IndexAddr)
+		if !ok {
+			return false
+		}
+		al, ok := ia.X.(*ssa.Alloc)
+		if !ok || al.Comment != "varargs" {
+			return false
+		}
+	}
+	return true
+}
+
+// BoxQuiet boxes without emitting the unbox(box(v)) == v instance.
+func (b *SMT) BoxQuiet(t types.Type, v string) string {
+	s := b.SortOf(t)
+	if _, isPtr := t.Underlying().(*types.Pointer); isPtr {
+		return v
+	}
+	if s == "Int" {
+		return v
+	}
+	fn := "box_" + sanitize(s)
+	un := "unbox_" + sanitize(s)
+	b.DeclFun(fn, []string{s}, "Int")
+	b.DeclFun(un, []string{"Int"}, s)
+	return app(fn, v)
+}
